@@ -46,7 +46,8 @@ ASSUMPTIONS = ['"whitespace" padding is drawn from space, tab, newline, CR, VT, 
                'MUST-REJECT when the hex part is not 32 hex digits',
                'integers with more than 4300 digits (CPython int/str conversion limit) are DONT-CARE',
                'distinctness of generate_uuid output is checked within one worker process']
-SHARDS = {'quick': 1, 'thorough': 16}
+INTERPRETER_FLAGS = [[], ['-O']]      # -bb not used here: the inputs mix str and bytes keys/subjects (DONT-CARE zone), where the pinned tree itself compares or str()s bytes
+SHARDS = {'quick': 4, 'thorough': 16}
 MIN_DISTINCT = {'quick': 5000, 'thorough': 50000}
 
 TRUE_WORDS = ['1', 't', 'true', 'on', 'y', 'yes']          # from the docstring of bool_from_string
